@@ -255,6 +255,77 @@ def uuid_cases(rng, tier):
         s = rng.choice(list(ODD_DECO.values()) + list(CANON_DECO.values()))(hexcore(rng, 32)) if rng.random() < 0.7 else rand_text(rng, 20)
         if 'Σ' not in s: yield {'op': 'fmt', 's': s}      # final-sigma rule of str.lower() is outside the model (see ASSUMPTIONS)
 
+# ---- look-alikes: code points that some case / compatibility mapping (but not necessarily lower()) sends onto ASCII text
+_PRE = None
+def fold_preimages():
+    """{ascii text (1..3 chars, lower case) : sorted list of non-ASCII strings (one code point) whose casefold(), upper().lower(),
+    swapcase().swapcase(), NFKC, NFKD (each also lower-cased / casefolded) is that text}; computed once per run from the interpreter"""
+    global _PRE
+    if _PRE is not None: return _PRE
+    import unicodedata
+    pre = {}; case = {}
+    for c in range(128, 0x110000):
+        if 0xD800 <= c <= 0xDFFF: continue
+        ch = chr(c)
+        forms = set()
+        for f in (ch.casefold(), ch.upper().lower(), ch.swapcase().swapcase(), ch.lower(), ch.upper()):
+            forms.add(f)
+            fl = f.lower()
+            if 1 <= len(fl) <= 3 and fl.isascii() and fl.isalnum(): case.setdefault(fl, set()).add(ch)
+        for nf in ('NFKC', 'NFKD'):
+            n = unicodedata.normalize(nf, ch)
+            if n != ch: forms.update((n, n.lower(), n.casefold()))
+        for f in forms:
+            fl = f.lower()
+            if 1 <= len(fl) <= 3 and fl.isascii() and fl.isalnum():
+                pre.setdefault(fl, set()).add(ch)
+    _PRE = {k: (sorted(case.get(k, ())), sorted(v - case.get(k, set()))) for k, v in pre.items()}   # (case mappings: all used; compatibility: sampled)
+    return _PRE
+
+def lookalikes(w, rng, limit_per_slot):
+    """w with one substring (1..3 chars) replaced by a look-alike; then some with two replacements"""
+    pre = fold_preimages()
+    out = []
+    for i in range(len(w)):
+        for L in (1, 2, 3):
+            sub = w[i:i + L].lower()
+            if len(sub) < L: continue
+            always, compat = pre.get(sub, ([], []))
+            if len(compat) > limit_per_slot: compat = rng.sample(compat, limit_per_slot)
+            for p in always + compat: out.append(w[:i] + p + w[i + L:])
+    return out
+
+def fold_family(rng, tier):
+    per = 6 if tier == 'quick' else 60
+    words = DOC_TRUE + DOC_FALSE
+    for w in words:
+        singles = lookalikes(w, rng, per)
+        doubles = []
+        for s1 in rng.sample(singles, min(len(singles), 4)):
+            doubles += [s2 for s2 in lookalikes(s1, rng, 1) if s2 != s1][:3]
+        for s in singles + doubles:
+            variants = [s, ''.join(ch.upper() if ch.isascii() else ch for ch in s)]
+            l, t = pad(rng)
+            if l or t: variants.append(l + s + t)
+            for x in variants:
+                yield {'op': 'bfs', 'v': S(x), 'strict': rng.random() < 0.5, 'default': rng.choice(DEFAULTS), 'kw': True}
+                if rng.random() < 0.5: yield {'op': 'ivb', 'v': S(x)}
+                if rng.random() < 0.25: yield {'op': 'ifb', 'v': S(x)}
+    # hex digits in other forms (fullwidth, mathematical, circled ...) inside otherwise well-formed UUID spellings
+    pre = fold_preimages()
+    for _ in range(60 if tier == 'quick' else 3000):
+        core = hexcore(rng, 32)
+        k = rng.choice([1, 1, 2, 32])
+        idx = range(32) if k == 32 else rng.sample(range(32), k)
+        cs = list(core)
+        for i in idx:
+            always, compat = pre.get(cs[i].lower(), ([], []))
+            if always + compat: cs[i] = rng.choice(always + compat)
+        core2 = ''.join(cs)
+        if core2 == core: continue
+        for d in ('plain', 'hyph', 'braced', 'urn'):
+            yield {'op': 'uuid', 'v': S(CANON_DECO[d](core2)), 'core': core2, 'deco': d}
+
 def gen_cases(rng, tier):
     quick = tier == 'quick'
     # --- bool_from_string / is_valid_boolstr / int_from_bool_as_string
@@ -403,9 +474,10 @@ def decode(c, out):
 def ascii_lower(s):
     return ''.join(chr(ord(ch) + 32) if 'A' <= ch <= 'Z' else ch for ch in s)
 
-def fold_ambiguous(s):
-    """a non-ASCII character that some notion of 'ignoring case' maps onto ASCII letters"""
-    return any(ord(ch) > 127 and any(ord(x) < 128 for x in ch.casefold() + ch.lower()) for ch in s)
+def lowered(s):
+    """'ignoring case' as the property means it: str.lower() of the running interpreter (NOT casefold / NFKC:
+    'yeſ', 'oﬀ', 'ｔｒｕｅ' are not words; theorem C14_no_nonascii_letter_folds_into_a_word says lower() adds nothing to ASCII)"""
+    return s.lower()
 
 def show(v):
     if isinstance(v, int) and not isinstance(v, bool) and abs(v) >= 10 ** 60: return '<int of %d digits>' % _declen(v)
@@ -441,9 +513,7 @@ def _oracle(c, io):
             t = text_of(v)
             if t is None: want = otherwise
             else:
-                core = t.strip()
-                if fold_ambiguous(core): return None
-                low = ascii_lower(core)
+                low = lowered(t.strip())
                 want = 'True' if low in DOC_TRUE else 'False' if low in DOC_FALSE else otherwise
         if io != want: return 'bool_from_string(%s, strict=%r, default=%r) gives %s, the documented words give %s' % (show(v), c['strict'], to_py(c['default']), io, want)
     elif op == 'ifb':
@@ -453,16 +523,14 @@ def _oracle(c, io):
             t = text_of(v)
             if t is None: want = '0'
             else:
-                core = t.strip()
-                if fold_ambiguous(core): return None
-                want = '1' if ascii_lower(core) in DOC_TRUE else '0'
+                want = '1' if lowered(t.strip()) in DOC_TRUE else '0'
         if io != want: return 'int_from_bool_as_string(%s) gives %s, the documented words give %s' % (show(v), io, want)
     elif op == 'ivb':
         v = to_py(c['v'])
         t = text_of(v)
-        if t is None or fold_ambiguous(t): return None
+        if t is None: return None
         if t == t.strip():
-            want = ascii_lower(t) in DOC_TRUE + DOC_FALSE
+            want = lowered(t) in DOC_TRUE + DOC_FALSE
             if io != str(want): return 'is_valid_boolstr(%r) gives %s on unpadded input, documented words give %s' % (show(v), io, want)
             S_, _ = _su()
             rec = _call(S_.bool_from_string, v, strict=True)
@@ -575,6 +643,7 @@ _gen_cases_main = gen_cases
 def gen_cases(rng, tier):
     yield from _gen_cases_main(rng, tier)
     yield from table_cases(rng)
+    yield from fold_family(rng, tier)
     yield from sweep_cases(tier)
 
 def impl_words():
@@ -595,6 +664,7 @@ def table_cases(rng):
 
 def search(rng, budget):
     yield from table_cases(rng)
+    yield from fold_family(rng, 'thorough')
     for _ in range(budget):
         yield from _gen_cases_main(rng, 'quick')
 
